@@ -35,17 +35,26 @@ def csrPath (dir host : Str) : Str := cachePath dir host (b "csr")
 inductive SanKind | dns | ip
   deriving DecidableEq, Repr
 
-/-- the entries `get_ext_config` writes: one per name, always of the kind whose
-    textual prefix is `Gen.pkiSanEntryPrefix` (`DNS:`) -/
-def sanEntries (names : List Str) : List (SanKind × Str) := names.map (fun n => (SanKind.dns, n))
+/-- `s[1:-1] if s.startswith('[') and s.endswith(']') else s`: IPv6 literals carry their
+    brackets in `request.host` -/
+def isBracketed (h : Str) : Bool := h.head? == some 91 && h.getLast? == some 93
+def stripBrackets (h : Str) : Str := if isBracketed h then (h.drop 1).dropLast else h
+
+/-- the kind of entry `get_ext_config` writes for a name; `isIp n` ⇔ `ipaddress.ip_address(n)`
+    accepts `n` (a parameter: the `ipaddress` module is not modelled) -/
+def kindOf (isIp : Str → Bool) (n : Str) : SanKind := if isIp n then .ip else .dns
+
+/-- one entry per name: `IP:` for address literals, `DNS:` otherwise -/
+def sanEntries (isIp : Str → Bool) (names : List Str) : List (SanKind × Str) :=
+  names.map (fun n => (kindOf isIp n, n))
 
 def kindPrefix : SanKind → Bytes
   | .dns => Gen.pkiSanEntryPrefix
-  | .ip => b "IP:"
+  | .ip => Gen.pkiSanIpEntryPrefix
 
-/-- `b'\nsubjectAltName=' + COMMA.join([b'DNS:%s' % bytes_(cname) for cname in alt_subj_names])` -/
-def sanLine (names : List Str) : Bytes :=
-  Gen.pkiSanHeader ++ join Gen.comma ((sanEntries names).map (fun e => kindPrefix e.1 ++ e.2))
+/-- `b'\nsubjectAltName=' + COMMA.join([b'IP:%s' % n if is_ip(n) else b'DNS:%s' % n for n in alt_subj_names])` -/
+def sanLine (isIp : Str → Bool) (names : List Str) : Bytes :=
+  Gen.pkiSanHeader ++ join Gen.comma ((sanEntries isIp names).map (fun e => kindPrefix e.1 ++ e.2))
 
 /-- `alt_subj_names is not None and len(alt_subj_names) > 0` -/
 def hasNames : Option (List Str) → Bool
@@ -53,8 +62,8 @@ def hasNames : Option (List Str) → Bool
   | _ => false
 
 /-- `get_ext_config(alt_subj_names, extended_key_usage)` -/
-def extConfig (alt : Option (List Str)) (eku : Option Str) : Bytes :=
-  (if hasNames alt then sanLine (alt.getD []) else []) ++
+def extConfig (isIp : Str → Bool) (alt : Option (List Str)) (eku : Option Str) : Bytes :=
+  (if hasNames alt then sanLine isIp (alt.getD []) else []) ++
   (match eku with
    | some e => Gen.pkiEkuHeader ++ e
    | none => [])
@@ -63,8 +72,8 @@ def extConfig (alt : Option (List Str)) (eku : Option Str) : Bytes :=
 def hasExtension (alt : Option (List Str)) (eku : Option Str) : Bool := hasNames alt || eku.isSome
 
 /-- content of the temporary file written by `ssl_config` -/
-def sslConfig (alt : Option (List Str)) (eku : Option Str) : Bytes :=
-  Gen.pkiDefaultConfig ++ (if hasExtension alt eku then Gen.pkiProxySection else []) ++ extConfig alt eku
+def sslConfig (isIp : Str → Bool) (alt : Option (List Str)) (eku : Option Str) : Bytes :=
+  Gen.pkiDefaultConfig ++ (if hasExtension alt eku then Gen.pkiProxySection else []) ++ extConfig isIp alt eku
 
 /-- one `run_openssl_command`: the argv, the temporary file that exists while it
     runs (path, content) and the file the command is asked to create (`-out`) -/
@@ -75,12 +84,12 @@ structure Call where
   deriving DecidableEq, Repr
 
 /-- `gen_public_key(...)`; `tmp` is the `uuid4` temp path of `ssl_config` -/
-def genPublicKey (openssl pubPath keyPath pw subject : Str) (alt : Option (List Str)) (eku : Option Str)
-    (days : Nat) (tmp : Str) : Call :=
+def genPublicKey (isIp : Str → Bool) (openssl pubPath keyPath pw subject : Str) (alt : Option (List Str))
+    (eku : Option Str) (days : Nat) (tmp : Str) : Call :=
   { argv := [openssl, b "req", b "-new", b "-x509", b "-sha256", b "-days", natToDec days, b "-subj", subject,
              b "-passin", b "pass:" ++ pw, b "-config", tmp, b "-key", keyPath, b "-out", pubPath] ++
             (if hasExtension alt eku then [b "-extensions", b "PROXY"] else []),
-    file := some (tmp, sslConfig alt eku), out := pubPath }
+    file := some (tmp, sslConfig isIp alt eku), out := pubPath }
 
 /-- `gen_csr(csr_path, key_path, password, crt_path)` -/
 def genCsr (openssl csrP keyPath pw crtPath : Str) : Call :=
@@ -89,12 +98,12 @@ def genCsr (openssl csrP keyPath pw crtPath : Str) : Call :=
     file := none, out := csrP }
 
 /-- `sign_csr(...)`; `tmp` is the temp path of `ext_file` -/
-def signCsr (openssl csrP crtPath caKey caPw caCrt serial : Str) (alt : Option (List Str)) (eku : Option Str)
-    (days : Nat) (tmp : Str) : Call :=
+def signCsr (isIp : Str → Bool) (openssl csrP crtPath caKey caPw caCrt serial : Str) (alt : Option (List Str))
+    (eku : Option Str) (days : Nat) (tmp : Str) : Call :=
   { argv := [openssl, b "x509", b "-req", b "-sha256", b "-CA", caCrt, b "-CAkey", caKey,
              b "-passin", b "pass:" ++ caPw, b "-set_serial", serial, b "-days", natToDec days,
              b "-extfile", tmp, b "-in", csrP, b "-out", crtPath],
-    file := some (tmp, extConfig alt eku), out := crtPath }
+    file := some (tmp, extConfig isIp alt eku), out := crtPath }
 
 /-! ### certificate subject copied from the upstream leaf (`gen_ca_signed_certificate`) -/
 
@@ -113,23 +122,5 @@ def buildSubject (up : List (Str × Str)) : Str :=
     match dictGet up kl.2 with
     | some v => if v.isEmpty then acc else acc ++ [47] ++ kl.1 ++ [61] ++ v
     | none => acc) []
-
-/-! ### reference identities (specification side of D16) -/
-
-def isDigit (c : UInt8) : Bool := 48 ≤ c && c ≤ 57
-
-/-- dotted quad of 1–3 digit groups (what `inet_pton(AF_INET, …)` accepts, up to the range check) -/
-def isIPv4Literal (h : Str) : Bool :=
-  let parts := splitAll1 46 h
-  parts.length == 4 && parts.all (fun p => !p.isEmpty && p.length ≤ 3 && p.all isDigit)
-
-/-- `[ … ]`-bracketed target (IPv6 literal as it appears in a CONNECT request-target) -/
-def isBracketed (h : Str) : Bool := h.head? == some 91 && h.getLast? == some 93
-
-def isIpLiteral (h : Str) : Bool := isIPv4Literal h || isBracketed h
-
-/-- RFC 2818 §3.1 / RFC 6125: an IP reference identity is matched against
-    iPAddress entries only, a DNS name against dNSName entries only -/
-def neededKind (h : Str) : SanKind := if isIpLiteral h then .ip else .dns
 
 end Px.Pki
